@@ -16,6 +16,16 @@ The model (DESIGN.md section 2, E4)
   (one logged 'write') on `flush()`, `close()`, a read/seek on the same object, or when it outgrows
   `buffer_size`.  Bytes still in the buffer die with the process.
 
+* The builtin `open()` is modelled the way CPython's FileIO works: the mode string is translated to O_* flags
+  ("w" = O_WRONLY|O_CREAT|O_TRUNC|O_CLOEXEC ...), the descriptor comes from `opener(path, flags)` when one is
+  given and from the fake `os.open(path, flags, 0o666)` otherwise, and the file object is a view on *that*
+  descriptor.  Creation, exclusivity, truncation, append and the access mode are therefore decided only by the
+  flags that reach the fake `os.open` (an opener that drops O_TRUNC leaves the old bytes in place; a write through
+  an O_RDONLY descriptor is EBADF).  `os.open/close/read/write/lseek/fstat/ftruncate/fdopen/fchmod` and the
+  Linux O_* values are provided.  Nothing is ignored silently: unknown keyword arguments are a TypeError,
+  un-modelled ones (`dir_fd=`, `follow_symlinks=False`, unknown flag bits, a descriptor this file system did not
+  hand out) raise NotImplementedError/RuntimeError, missing os attributes raise AttributeError.
+
 Crash images
 ------------
 For **every prefix of the operation log** (`crash_points()`), the images a crash at that point may leave:
@@ -134,7 +144,7 @@ class CrashFS:
         self._inodes = {}
         self._next_ino = 2
         self._next_fd = 100
-        self._fds = {}                 # fd -> (ino, FakeFile | None, path, [pos, append] | None)
+        self._fds = {}                 # fd -> _FD
         self.names = {}                # current namespace: normalised absolute path -> ino
         self.modes = {}                # current modes: ino -> st_mode
         self._dnames = {}              # durable namespace
@@ -251,47 +261,71 @@ class CrashFS:
     # ---- open() ----------------------------------------------------------------------------------
     def _open(self, file, mode='r', buffering=-1, encoding=None, errors=None, newline=None, closefd=True,
               opener=None):
-        if isinstance(file, int):
-            raise NotImplementedError('crashfs: open(fd) is not modelled')
-        path = self._norm(file)
-        flags = set(mode)
-        if not flags <= set('rwxabt+') or len(flags & set('rwxa')) != 1 or ('b' in flags and 't' in flags):
+        """The builtin open(), done the way CPython's FileIO does it: the mode string becomes O_* flags, the
+        descriptor comes from `opener(file, flags)` (default: this file system's os.open with mode 0o666) and
+        the returned object is a view on *that descriptor* - whether the file is created, truncated or
+        appended to is decided only by the flags that reach os.open."""
+        if not isinstance(mode, str):
+            raise TypeError(f'open() argument mode must be str, not {type(mode).__name__}')
+        chars = set(mode)
+        if not chars <= set('rwxabt+') or len(chars & set('rwxa')) != 1 or ('b' in chars and 't' in chars) \
+                or len(mode) != len(chars):
             raise ValueError(f'invalid mode: {mode!r}')
-        binary = 'b' in flags
+        binary = 'b' in chars
         if binary and (encoding is not None or errors is not None or newline is not None):
             raise ValueError("binary mode doesn't take an encoding/errors/newline argument")
-        creating = bool(flags & set('wxa'))
-        op = self._begin('open', creating, path=path, mode=mode)
-        try:
-            ino = self.names.get(path)
-            if ino is not None and self._inodes[ino].kind == 'd':
-                raise IsADirectoryError(errno.EISDIR, 'Is a directory', path)
-            if 'x' in flags and ino is not None:
-                raise FileExistsError(errno.EEXIST, 'File exists', path)
-            if ino is None:
-                if not creating:
-                    raise self._enoent(path)
-                self._parent_check(path)
-                ino = self._new_inode('f')
-                self._dirop('create', path, ino, S_IFREG | (0o666 & ~self.umask))
-                op.detail['created'] = True
-            elif 'w' in flags:
-                if self._inodes[ino].current():
-                    self._data_op(ino, ('t', 0))
-                    op.detail['truncated'] = True
-        except OSError as e:
-            self._fail(op, e)
-        f = FakeFile(self, ino, path, mode, binary, encoding or 'utf-8', errors or 'strict', newline,
-                     readable='r' in flags or '+' in flags, writable=creating or '+' in flags,
-                     append='a' in flags, unbuffered=(buffering == 0))
-        self._end(op)
+        if not isinstance(buffering, int):
+            raise TypeError('buffering must be an integer')
+        if buffering == 0 and not binary:
+            raise ValueError("can't have unbuffered text I/O")
+        if newline not in (None, '', '\n', '\r', '\r\n'):
+            raise ValueError(f'illegal newline value: {newline!r}')
+        readable = 'r' in chars or '+' in chars
+        writable = bool(chars & set('wxa')) or '+' in chars
+        O = self.os
+        flags = O.O_RDWR if readable and writable else O.O_RDONLY if readable else O.O_WRONLY
+        if 'w' in chars:
+            flags |= O.O_CREAT | O.O_TRUNC
+        elif 'x' in chars:
+            flags |= O.O_CREAT | O.O_EXCL
+        elif 'a' in chars:
+            flags |= O.O_CREAT | O.O_APPEND
+        flags |= O.O_CLOEXEC
+        if isinstance(file, bool) or isinstance(file, float):
+            raise TypeError('integer argument expected')
+        if isinstance(file, int):
+            if opener is not None:
+                raise NotImplementedError('crashfs: open(fd, opener=...) is not modelled')
+            if file < 0:
+                raise ValueError('negative file descriptor')
+            fd = file
+            if fd not in self._fds:
+                raise OSError(errno.EBADF, 'Bad file descriptor')
+        else:
+            self._norm(file)                               # type check of the name
+            if not closefd:
+                raise ValueError('Cannot use closefd=False with file name')
+            if opener is None:
+                fd = O.open(file, flags, 0o666)
+            else:
+                fd = opener(file, flags)
+                if isinstance(fd, bool) or not isinstance(fd, int):
+                    raise TypeError('expected integer from opener')
+                if fd < 0:
+                    raise ValueError(f'opener returned {fd}')
+                if fd not in self._fds:
+                    raise RuntimeError(f'crashfs: the opener returned descriptor {fd}, which this fake file system did '
+                                       f'not hand out - the opener must go through the bound fake os.open')
+        ent = self._fds[fd]
+        if self._inodes[ent.ino].kind == 'd':
+            if closefd:
+                self._fds.pop(fd, None)
+            raise IsADirectoryError(errno.EISDIR, 'Is a directory', file)
+        f = FakeFile(self, ent, file, mode, binary, encoding or 'utf-8', errors or 'strict', newline,
+                     readable=readable, writable=writable, unbuffered=(buffering == 0), closefd=closefd)
+        if 'a' in chars:
+            f._pos = len(self._inodes[ent.ino].current())     # FileIO seeks to the end once, best effort
         return f
-
-    def _alloc_fd(self, ino, fobj):
-        fd = self._next_fd
-        self._next_fd += 1
-        self._fds[fd] = (ino, fobj, fobj.name, None)
-        return fd
 
     # ---- binding into a module under test ---------------------------------------------------------
     def bound(self, *modules, names=('open', 'os')):
@@ -488,19 +522,45 @@ class _Binding:
         self.saved = []
 
 
-class FakeFile:
-    """File object over a crashfs inode: text or binary, with Python's user-space write buffer."""
+class _FD:
+    """An open file description: what os.open returned."""
+    __slots__ = ('fd', 'ino', 'path', 'flags', 'pos')
 
-    def __init__(self, fs, ino, path, mode, binary, encoding, errors, newline, readable, writable, append,
-                 unbuffered):
-        self._fs, self._ino, self.name, self.mode = fs, ino, path, mode
+    def __init__(self, fd, ino, path, flags):
+        self.fd, self.ino, self.path, self.flags, self.pos = fd, ino, path, flags, 0
+
+    @property
+    def readable(self):
+        return self.flags & 3 in (FakeOS.O_RDONLY, FakeOS.O_RDWR)
+
+    @property
+    def writable(self):
+        return self.flags & 3 in (FakeOS.O_WRONLY, FakeOS.O_RDWR)
+
+    @property
+    def append(self):
+        return bool(self.flags & FakeOS.O_APPEND)
+
+    @property
+    def sync(self):
+        return bool(self.flags & (FakeOS.O_SYNC | FakeOS.O_DSYNC))
+
+
+class FakeFile:
+    """File object over a crashfs descriptor: text or binary, with Python's user-space write buffer."""
+
+    def __init__(self, fs, ent, name, mode, binary, encoding, errors, newline, readable, writable, unbuffered,
+                 closefd=True):
+        self._fs, self._ent, self._ino, self.name, self.mode = fs, ent, ent.ino, name, mode
+        self._path = ent.path
         self._binary, self.encoding, self.errors, self._newline = binary, encoding, errors, newline
-        self._readable, self._writable, self._append = readable, writable, append
+        self._readable, self._writable = readable, writable      # what the mode string allows (Python level)
+        self._append = ent.append                                  # what the descriptor does (kernel level)
         self._unbuffered = unbuffered
-        self._buf = []            # pending user-space writes: [(offset | None for append, bytes)]
+        self._closefd = closefd
+        self._buf = []            # pending user-space writes: [(offset | None for O_APPEND, bytes)]
         self._buffered = 0
-        self._pos = len(fs._inodes[ino].current()) if append else 0
-        self._fd = None
+        self._pos = ent.pos
         self.closed = False
 
     # -- helpers
@@ -524,19 +584,22 @@ class FakeFile:
             else:
                 runs.append((off, data))
         self._buf, self._buffered = [], 0
+        if not self._ent.writable or self._ent.fd not in self._fs._fds:
+            raise OSError(errno.EBADF, 'Bad file descriptor')       # what write(2) says to a read-only/closed fd
         for off, data in runs:
             if off is None:
                 off = len(self._content())
-            op = self._fs._begin('write', True, path=self.name, offset=off, size=len(data))
+            op = self._fs._begin('write', True, path=self._path, offset=off, size=len(data))
             self._fs._data_op(self._ino, ('w', off, data))
+            if self._ent.sync:
+                self._fs._sync_inode(self._ino)
             self._fs._end(op)
+        self._ent.pos = self._pos
 
     # -- file API
     def fileno(self):
         self._check()
-        if self._fd is None:
-            self._fd = self._fs._alloc_fd(self._ino, self)
-        return self._fd
+        return self._ent.fd
 
     def readable(self):
         return self._readable
@@ -564,7 +627,7 @@ class FakeFile:
             n = len(s)
         if not data:
             return 0
-        op = self._fs._begin('buffer', False, path=self.name, size=len(data))
+        op = self._fs._begin('buffer', False, path=self._path, size=len(data))
         if self._append:
             self._buf.append((None, data))
         else:
@@ -589,10 +652,12 @@ class FakeFile:
         if not self._readable:
             raise OSError('not readable')
         self._drain()
+        if not self._ent.readable:
+            raise OSError(errno.EBADF, 'Bad file descriptor')
         c = self._content()
         end = len(c) if n is None or n < 0 else min(len(c), self._pos + n)
         data = c[self._pos:end]
-        op = self._fs._begin('read', False, path=self.name, offset=self._pos, size=len(data))
+        op = self._fs._begin('read', False, path=self._path, offset=self._pos, size=len(data))
         self._fs._end(op)
         self._pos += len(data)
         return data
@@ -667,7 +732,7 @@ class FakeFile:
             raise OSError('not writable')
         self._drain()
         size = self._pos if size is None else size
-        op = self._fs._begin('truncate', True, path=self.name, size=size)
+        op = self._fs._begin('truncate', True, path=self._path, size=size)
         if size != len(self._content()):
             self._fs._data_op(self._ino, ('t', size))
         self._fs._end(op)
@@ -680,9 +745,9 @@ class FakeFile:
             self._drain()
         finally:
             self.closed = True
-            if self._fd is not None:
-                self._fs._fds.pop(self._fd, None)
-            op = self._fs._begin('close', False, path=self.name)
+            if self._closefd:
+                self._fs._fds.pop(self._ent.fd, None)
+            op = self._fs._begin('close', False, path=self._path)
             self._fs._end(op)
 
     def __enter__(self):
@@ -763,15 +828,29 @@ class FakePath:
         return getattr(posixpath, name)
 
 
+def _only_defaults(fn, **kw):
+    """Keyword arguments the model does not implement must not be swallowed: a fake that ignores an argument
+    hides exactly the bugs it is there to find."""
+    for k, v in kw.items():
+        if v is not None and v is not True:
+            raise NotImplementedError(f'crashfs: os.{fn}({k}={v!r}) is not modelled')
+
+
 class FakeOS:
     """The subset of the os module that file-handling code uses, over crashfs.  Anything else raises
-    AttributeError (a harness error that must surface, never a silent trip to the real disk)."""
+    AttributeError, unknown flags / keyword arguments raise NotImplementedError (a harness error that must
+    surface, never a silent trip to the real disk and never a silently ignored argument)."""
 
     sep, linesep, curdir, pardir, extsep, altsep, pathsep, devnull = '/', '\n', '.', '..', '.', None, ':', '/dev/null'
     name = 'posix'
     error = OSError
-    O_RDONLY, O_WRONLY, O_RDWR, O_CREAT, O_EXCL, O_TRUNC, O_APPEND = 0, 1, 2, 0o100, 0o200, 0o1000, 0o2000
-    O_DIRECTORY, O_CLOEXEC, O_SYNC, O_DSYNC = 0o200000, 0o2000000, 0o4010000, 0o10000
+    # Linux values, identical to the real module's on this platform (asserted in selftest)
+    O_RDONLY, O_WRONLY, O_RDWR, O_ACCMODE = 0, 1, 2, 3
+    O_CREAT, O_EXCL, O_NOCTTY, O_TRUNC, O_APPEND, O_NONBLOCK = 0o100, 0o200, 0o400, 0o1000, 0o2000, 0o4000
+    O_DSYNC, O_DIRECTORY, O_NOFOLLOW, O_CLOEXEC, O_SYNC = 0o10000, 0o200000, 0o400000, 0o2000000, 0o4010000
+    O_LARGEFILE = 0
+    _KNOWN_FLAGS = (O_ACCMODE | O_CREAT | O_EXCL | O_NOCTTY | O_TRUNC | O_APPEND | O_NONBLOCK | O_DSYNC | O_DIRECTORY
+                    | O_NOFOLLOW | O_CLOEXEC | O_SYNC | 0o100000)     # 0o100000 = O_LARGEFILE on 32-bit ABIs
     SEEK_SET, SEEK_CUR, SEEK_END = 0, 1, 2
     F_OK, R_OK, W_OK, X_OK = 0, 4, 2, 1
 
@@ -783,6 +862,19 @@ class FakeOS:
     def __getattr__(self, name):
         raise AttributeError(f'crashfs.FakeOS has no attribute {name!r} (extend vf/crashfs.py if the code under '
                              f'test legitimately needs it)')
+
+    @classmethod
+    def flag_names(cls, flags):
+        names = [('O_RDONLY', 'O_WRONLY', 'O_RDWR', 'O_ACCMODE')[flags & 3]]
+        for n in ('O_CREAT', 'O_EXCL', 'O_TRUNC', 'O_APPEND', 'O_DIRECTORY', 'O_CLOEXEC', 'O_NOFOLLOW', 'O_NONBLOCK',
+                  'O_NOCTTY'):
+            if flags & getattr(cls, n):
+                names.append(n)
+        if flags & cls.O_SYNC == cls.O_SYNC:
+            names.append('O_SYNC')
+        elif flags & cls.O_DSYNC:
+            names.append('O_DSYNC')
+        return '|'.join(names)
 
     # -- process
     def getpid(self):
@@ -804,20 +896,149 @@ class FakeOS:
     def getenv(self, key, default=None):
         return self.environ.get(key, default)
 
+    # -- descriptors ------------------------------------------------------------------------------
+    def _ent(self, fd):
+        if hasattr(fd, 'fileno'):
+            fd = fd.fileno()
+        if isinstance(fd, bool) or not isinstance(fd, int):
+            raise TypeError(f'an integer is required (got type {type(fd).__name__})')
+        ent = self._fs._fds.get(fd)
+        if ent is None:
+            raise OSError(errno.EBADF, 'Bad file descriptor')
+        return ent
+
+    def open(self, path, flags, mode=0o777, *, dir_fd=None):
+        """open(2): creation, exclusivity, truncation and append are decided by `flags` alone."""
+        _only_defaults('open', dir_fd=dir_fd)
+        fs = self._fs
+        if isinstance(flags, bool) or not isinstance(flags, int) or not isinstance(mode, int):
+            raise TypeError('an integer is required')
+        if flags & ~self._KNOWN_FLAGS:
+            raise NotImplementedError(f'crashfs: os.open flags {flags & ~self._KNOWN_FLAGS:#o} are not modelled')
+        p = fs._norm(path)
+        acc = flags & self.O_ACCMODE
+        op = fs._begin('open', bool(flags & (self.O_CREAT | self.O_TRUNC)), path=p, flags=self.flag_names(flags))
+        try:
+            if acc == self.O_ACCMODE:
+                raise OSError(errno.EINVAL, 'Invalid argument', p)
+            ino = fs.names.get(p)
+            if ino is None:
+                if not flags & self.O_CREAT:
+                    raise fs._enoent(p)
+                if flags & self.O_DIRECTORY:
+                    raise OSError(errno.EINVAL, 'Invalid argument', p)
+                fs._parent_check(p)
+                ino = fs._new_inode('f')
+                fs._dirop('create', p, ino, S_IFREG | (mode & ~fs.umask & 0o7777))
+                op.detail['created'] = True
+            else:
+                kind = fs._inodes[ino].kind
+                if flags & self.O_CREAT and flags & self.O_EXCL:
+                    raise FileExistsError(errno.EEXIST, 'File exists', p)
+                if kind == 'd' and (acc != self.O_RDONLY or flags & (self.O_CREAT | self.O_TRUNC)):
+                    raise IsADirectoryError(errno.EISDIR, 'Is a directory', p)
+                if kind != 'd' and flags & self.O_DIRECTORY:
+                    raise NotADirectoryError(errno.ENOTDIR, 'Not a directory', p)
+                if flags & self.O_TRUNC and kind == 'f' and fs._inodes[ino].current():
+                    fs._data_op(ino, ('t', 0))
+                    op.detail['truncated'] = True
+        except OSError as e:
+            fs._fail(op, e)
+        fd = fs._next_fd
+        fs._next_fd += 1
+        fs._fds[fd] = _FD(fd, ino, p, flags)
+        op.detail['fd'] = fd
+        fs._end(op)
+        return fd
+
+    def close(self, fd):
+        ent = self._ent(fd)
+        op = self._fs._begin('close', False, path=ent.path, fd=ent.fd)
+        del self._fs._fds[ent.fd]
+        self._fs._end(op)
+
+    def fdopen(self, fd, mode='r', buffering=-1, encoding=None, errors=None, newline=None, closefd=True, opener=None):
+        if not isinstance(fd, int):
+            raise TypeError(f'invalid fd type ({type(fd)}, expected integer)')
+        return self._fs._open(fd, mode, buffering, encoding, errors, newline, closefd, opener)
+
+    def write(self, fd, data):
+        fs = self._fs
+        ent = self._ent(fd)
+        data = bytes(data)
+        if not ent.writable:
+            raise OSError(errno.EBADF, 'Bad file descriptor')
+        off = len(fs._inodes[ent.ino].current()) if ent.append else ent.pos
+        op = fs._begin('write', True, path=ent.path, offset=off, size=len(data))
+        if data:
+            fs._data_op(ent.ino, ('w', off, data))
+            if ent.sync:
+                fs._sync_inode(ent.ino)
+        ent.pos = off + len(data)
+        fs._end(op)
+        return len(data)
+
+    def read(self, fd, n):
+        fs = self._fs
+        ent = self._ent(fd)
+        if not ent.readable or fs._inodes[ent.ino].kind == 'd':
+            raise OSError(errno.EBADF if not ent.readable else errno.EISDIR, 'Bad file descriptor')
+        data = fs._inodes[ent.ino].current()[ent.pos:ent.pos + n]
+        op = fs._begin('read', False, path=ent.path, offset=ent.pos, size=len(data))
+        fs._end(op)
+        ent.pos += len(data)
+        return data
+
+    def lseek(self, fd, pos, how):
+        ent = self._ent(fd)
+        size = len(self._fs._inodes[ent.ino].current())
+        new = pos if how == 0 else ent.pos + pos if how == 1 else size + pos if how == 2 else None
+        if new is None or new < 0:
+            raise OSError(errno.EINVAL, 'Invalid argument')
+        ent.pos = new
+        return new
+
+    def fstat(self, fd):
+        return self._stat_ino(self._ent(fd).ino)
+
+    def ftruncate(self, fd, length):
+        fs = self._fs
+        ent = self._ent(fd)
+        if not ent.writable:
+            raise OSError(errno.EINVAL, 'Invalid argument')
+        op = fs._begin('truncate', True, path=ent.path, size=length)
+        if length != len(fs._inodes[ent.ino].current()):
+            fs._data_op(ent.ino, ('t', length))
+        fs._end(op)
+
+    def truncate(self, path, length):
+        fs = self._fs
+        if isinstance(path, int):
+            return self.ftruncate(path, length)
+        p = fs._norm(path)
+        op = fs._begin('truncate', True, path=p, size=length)
+        ino = fs.names.get(p)
+        if ino is None:
+            fs._fail(op, fs._enoent(p))
+        if fs._inodes[ino].kind == 'd':
+            fs._fail(op, IsADirectoryError(errno.EISDIR, 'Is a directory', p))
+        if length != len(fs._inodes[ino].current()):
+            fs._data_op(ino, ('t', length))
+        fs._end(op)
+
     # -- durability
     def fsync(self, fd):
         fs = self._fs
-        if hasattr(fd, 'fileno'):
-            fd = fd.fileno()
-        ent = fs._fds.get(fd)
-        op = fs._begin('fsync', True, fd=fd, path=ent[2] if ent else None)
-        if ent is None:
-            fs._fail(op, OSError(errno.EBADF, 'Bad file descriptor'))
-        ino = ent[0]
-        if fs._inodes[ino].kind == 'd':
+        try:
+            ent = self._ent(fd)
+        except OSError as e:
+            op = fs._begin('fsync', True, fd=fd, path=None)
+            fs._fail(op, e)
+        op = fs._begin('fsync', True, fd=ent.fd, path=ent.path)
+        if fs._inodes[ent.ino].kind == 'd':
             fs._commit_dirops()
         else:
-            fs._sync_inode(ino)
+            fs._sync_inode(ent.ino)
             if fs.journal:
                 fs._commit_dirops()
         fs._end(op)
@@ -833,7 +1054,8 @@ class FakeOS:
         fs._end(op)
 
     # -- namespace
-    def rename(self, src, dst, **kw):
+    def rename(self, src, dst, *, src_dir_fd=None, dst_dir_fd=None):
+        _only_defaults('rename', src_dir_fd=src_dir_fd, dst_dir_fd=dst_dir_fd)
         fs = self._fs
         s, d = fs._norm(src), fs._norm(dst)
         op = fs._begin('rename', True, src=s, dst=d)
@@ -859,7 +1081,8 @@ class FakeOS:
 
     replace = rename
 
-    def link(self, src, dst, **kw):
+    def link(self, src, dst, *, src_dir_fd=None, dst_dir_fd=None, follow_symlinks=True):
+        _only_defaults('link', src_dir_fd=src_dir_fd, dst_dir_fd=dst_dir_fd, follow_symlinks=follow_symlinks)
         fs = self._fs
         s, d = fs._norm(src), fs._norm(dst)
         op = fs._begin('link', True, src=s, dst=d)
@@ -875,7 +1098,8 @@ class FakeOS:
             fs._fail(op, e)
         fs._end(op)
 
-    def remove(self, path, **kw):
+    def remove(self, path, *, dir_fd=None):
+        _only_defaults('remove', dir_fd=dir_fd)
         fs = self._fs
         p = fs._norm(path)
         op = fs._begin('unlink', True, path=p)
@@ -892,7 +1116,8 @@ class FakeOS:
 
     unlink = remove
 
-    def mkdir(self, path, mode=0o777, **kw):
+    def mkdir(self, path, mode=0o777, *, dir_fd=None):
+        _only_defaults('mkdir', dir_fd=dir_fd)
         fs = self._fs
         p = fs._norm(path)
         op = fs._begin('mkdir', True, path=p)
@@ -905,8 +1130,8 @@ class FakeOS:
             fs._fail(op, e)
         fs._end(op)
 
-    def makedirs(self, path, mode=0o777, exist_ok=False):
-        p = self._fs._norm(path)
+    def makedirs(self, name, mode=0o777, exist_ok=False):
+        p = self._fs._norm(name)
         parts = p.split('/')[1:]
         cur = ''
         for i, part in enumerate(parts):
@@ -917,7 +1142,8 @@ class FakeOS:
                 continue
             self.mkdir(cur, mode)
 
-    def rmdir(self, path, **kw):
+    def rmdir(self, path, *, dir_fd=None):
+        _only_defaults('rmdir', dir_fd=dir_fd)
         fs = self._fs
         p = fs._norm(path)
         op = fs._begin('rmdir', True, path=p)
@@ -934,17 +1160,29 @@ class FakeOS:
             fs._fail(op, e)
         fs._end(op)
 
-    def chmod(self, path, mode, **kw):
+    def _chmod_ino(self, op, ino, mode):
         fs = self._fs
+        new = (fs.modes[ino] & ~0o7777) | (mode & 0o7777)
+        if new != fs.modes[ino]:
+            fs._dirop('chmod', ino, new)
+        fs._end(op)
+
+    def chmod(self, path, mode, *, dir_fd=None, follow_symlinks=True):
+        _only_defaults('chmod', dir_fd=dir_fd, follow_symlinks=follow_symlinks)
+        fs = self._fs
+        if isinstance(path, int):
+            return self.fchmod(path, mode)
         p = fs._norm(path)
         op = fs._begin('chmod', True, path=p, mode=oct(mode))
         ino = fs.names.get(p)
         if ino is None:
             fs._fail(op, fs._enoent(p))
-        new = (fs.modes[ino] & ~0o7777) | (mode & 0o7777)
-        if new != fs.modes[ino]:
-            fs._dirop('chmod', ino, new)
-        fs._end(op)
+        self._chmod_ino(op, ino, mode)
+
+    def fchmod(self, fd, mode):
+        ent = self._ent(fd)
+        op = self._fs._begin('chmod', True, path=ent.path, mode=oct(mode))
+        self._chmod_ino(op, ent.ino, mode)
 
     def listdir(self, path='.'):
         fs = self._fs
@@ -970,7 +1208,8 @@ class FakeOS:
             entries.append(_DirEntry(self, name, full, is_dir))
         return _ScanDir(entries)
 
-    def stat(self, path, **kw):
+    def stat(self, path, *, dir_fd=None, follow_symlinks=True):
+        _only_defaults('stat', dir_fd=dir_fd, follow_symlinks=follow_symlinks)
         fs = self._fs
         if isinstance(path, int):
             return self.fstat(path)
@@ -982,7 +1221,8 @@ class FakeOS:
         fs._end(op)
         return self._stat_ino(ino)
 
-    lstat = stat
+    def lstat(self, path, *, dir_fd=None):
+        return self.stat(path, dir_fd=dir_fd)
 
     def _stat_ino(self, ino):
         fs = self._fs
@@ -992,100 +1232,14 @@ class FakeOS:
                            st_nlink=sum(1 for i in fs.names.values() if i == ino), st_uid=0, st_gid=0,
                            st_mtime=0.0, st_atime=0.0, st_ctime=0.0, st_mtime_ns=0, st_atime_ns=0, st_ctime_ns=0)
 
-    def access(self, path, mode, **kw):
-        return self._fs._norm(path) in self._fs.names
-
-    # -- low-level descriptors (enough for directory fsync and simple os.write users)
-    def open(self, path, flags, mode=0o777, **kw):
-        fs = self._fs
-        p = fs._norm(path)
-        creating = bool(flags & self.O_CREAT)
-        op = fs._begin('os.open', creating or bool(flags & self.O_TRUNC), path=p, flags=flags)
-        try:
-            ino = fs.names.get(p)
-            if ino is None:
-                if not creating:
-                    raise fs._enoent(p)
-                fs._parent_check(p)
-                ino = fs._new_inode('f')
-                fs._dirop('create', p, ino, S_IFREG | (mode & ~fs.umask & 0o777))
-            elif creating and flags & self.O_EXCL:
-                raise FileExistsError(errno.EEXIST, 'File exists', p)
-            elif flags & self.O_TRUNC and fs._inodes[ino].kind == 'f' and fs._inodes[ino].current():
-                fs._data_op(ino, ('t', 0))
-            if flags & self.O_DIRECTORY and fs._inodes[ino].kind != 'd':
-                raise NotADirectoryError(errno.ENOTDIR, 'Not a directory', p)
-        except OSError as e:
-            fs._fail(op, e)
-        fd = fs._next_fd
-        fs._next_fd += 1
-        fs._fds[fd] = (ino, None, p, [0, bool(flags & self.O_APPEND)])
-        fs._end(op)
-        return fd
-
-    def close(self, fd):
-        if self._fs._fds.pop(fd, None) is None:
-            raise OSError(errno.EBADF, 'Bad file descriptor')
-
-    def write(self, fd, data):
-        fs = self._fs
-        ent = fs._fds.get(fd)
-        if ent is None or ent[1] is not None:
-            raise OSError(errno.EBADF, 'Bad file descriptor')
-        ino, _, p, st = ent
-        off = len(fs._inodes[ino].current()) if st[1] else st[0]
-        op = fs._begin('write', True, path=p, offset=off, size=len(data))
-        if data:
-            fs._data_op(ino, ('w', off, bytes(data)))
-        st[0] = off + len(data)
-        fs._end(op)
-        return len(data)
-
-    def read(self, fd, n):
-        fs = self._fs
-        ent = fs._fds.get(fd)
-        if ent is None or ent[1] is not None:
-            raise OSError(errno.EBADF, 'Bad file descriptor')
-        ino, _, p, st = ent
-        data = fs._inodes[ino].current()[st[0]:st[0] + n]
-        st[0] += len(data)
-        return data
-
-    def lseek(self, fd, pos, how):
-        fs = self._fs
-        ent = fs._fds.get(fd)
-        if ent is None or ent[1] is not None:
-            raise OSError(errno.EBADF, 'Bad file descriptor')
-        st = ent[3]
-        st[0] = pos if how == 0 else st[0] + pos if how == 1 else len(fs._inodes[ent[0]].current()) + pos
-        return st[0]
-
-    def fstat(self, fd):
-        ent = self._fs._fds.get(fd)
-        if ent is None:
-            raise OSError(errno.EBADF, 'Bad file descriptor')
-        return self._stat_ino(ent[0])
-
-    def ftruncate(self, fd, size):
-        fs = self._fs
-        ent = fs._fds.get(fd)
-        if ent is None:
-            raise OSError(errno.EBADF, 'Bad file descriptor')
-        op = fs._begin('truncate', True, fd=fd, size=size)
-        if size != len(fs._inodes[ent[0]].current()):
-            fs._data_op(ent[0], ('t', size))
-        fs._end(op)
-
-    def truncate(self, path, size):
-        fs = self._fs
-        p = fs._norm(path)
-        op = fs._begin('truncate', True, path=p, size=size)
-        ino = fs.names.get(p)
-        if ino is None:
-            fs._fail(op, fs._enoent(p))
-        if size != len(fs._inodes[ino].current()):
-            fs._data_op(ino, ('t', size))
-        fs._end(op)
+    def access(self, path, mode, *, dir_fd=None, effective_ids=False, follow_symlinks=True):
+        _only_defaults('access', dir_fd=dir_fd, follow_symlinks=follow_symlinks)
+        if effective_ids:
+            raise NotImplementedError('crashfs: os.access(effective_ids=True) is not modelled')
+        p = self._fs._norm(path)
+        op = self._fs._begin('access', False, path=p)
+        self._fs._end(op)
+        return p in self._fs.names
 
 
 class _DirEntry:
@@ -1202,6 +1356,61 @@ def selftest():
     m = imgs[0].mount()
     assert m.os.path.exists('/d/b') and not m.os.path.exists('/d/a') and m.open('/d/b').read() == 'A'
     assert m.os.listdir('/d') == ['b']
+    # 9. open() goes through os.open: flags decide, an opener is honoured, nothing is silently ignored
+    import os as real_os
+    for n in ('O_RDONLY', 'O_WRONLY', 'O_RDWR', 'O_CREAT', 'O_EXCL', 'O_TRUNC', 'O_APPEND', 'O_CLOEXEC', 'O_DIRECTORY',
+              'O_SYNC', 'O_DSYNC', 'O_NOFOLLOW', 'O_NONBLOCK', 'O_NOCTTY', 'O_ACCMODE'):
+        assert getattr(FakeOS, n) == getattr(real_os, n), n
+    fs = CrashFS(files={'/d/t': b'0123456789'})
+    seen = []
+
+    def keep_flags(path, flags):
+        seen.append(flags)
+        return fs.os.open(path, flags, 0o600)
+
+    def drop_trunc(path, flags):
+        return fs.os.open(path, fs.os.O_WRONLY | fs.os.O_CREAT, 0o600)
+    with fs.open('/d/t', 'w', opener=keep_flags) as f:
+        f.write('ab')
+    assert seen == [real_os.O_WRONLY | real_os.O_CREAT | real_os.O_TRUNC | real_os.O_CLOEXEC], seen
+    assert fs.read_current('/d/t') == b'ab'
+    with fs.open('/d/t', 'w', opener=drop_trunc) as f:        # O_TRUNC lost: old bytes survive behind the new ones
+        f.write('X')
+    assert fs.read_current('/d/t') == b'Xb', fs.read_current('/d/t')
+    with fs.open('/d/n', 'w', opener=drop_trunc) as f:
+        f.write('new')
+    assert fs.read_current('/d/n') == b'new' and fs.os.stat('/d/n').st_mode & 0o777 == 0o600
+    with fs.open('/d/t', 'a') as f:
+        f.write('!')
+    assert fs.read_current('/d/t') == b'Xb!'
+    fd = fs.os.open('/d/t', fs.os.O_RDONLY)
+    g = fs.os.fdopen(fd, 'w')                                  # Python lets you; the kernel does not
+    g.write('zz')
+    try:
+        g.flush()
+        raise AssertionError('write through a read-only descriptor succeeded')
+    except OSError as e:
+        assert e.errno == errno.EBADF
+    g._buf = []
+    g.close()
+    try:
+        fs.os.open('/d/t', fs.os.O_WRONLY | fs.os.O_CREAT | fs.os.O_EXCL)
+        raise AssertionError('O_EXCL ignored')
+    except FileExistsError:
+        pass
+    fd = fs.os.open('/d/t', fs.os.O_RDWR | fs.os.O_APPEND)
+    fs.os.lseek(fd, 0, 0)
+    fs.os.write(fd, b'?')                                      # O_APPEND: always at the end
+    assert fs.read_current('/d/t') == b'Xb!?' and fs.os.read(fd, 10) == b''
+    fs.os.close(fd)
+    for bad in (lambda: fs.open('/d/t', 'r', foo=1), lambda: fs.os.open('/d/t', 0, dir_fd=3),
+                lambda: fs.os.stat('/d/t', follow_symlinks=False), lambda: fs.os.open('/d/t', 0o40000000),
+                lambda: fs.open('/d/t', 'w', opener=lambda p, fl: 3), lambda: fs.os.rename('/d/t', '/d/u', bogus=1)):
+        try:
+            bad()
+            raise AssertionError('unsupported argument swallowed')
+        except (TypeError, NotImplementedError, RuntimeError):
+            pass
     # 8. binding
     mod = types.ModuleType('m')
     mod.os = 'real'
